@@ -10,7 +10,7 @@
 (* Each step is split in two so that the simulator chooses parameters      *)
 (* cheaply (Choose) and evaluates the semantic function once (Apply).      *)
 (***************************************************************************)
-EXTENDS Bid, Text, Json, TLC
+EXTENDS Bid, Elem, Json, TLC
 
 CONSTANTS Depth, NReg
 
@@ -35,14 +35,18 @@ Init == /\ reg = [r \in Regs |-> ZeroV(FALSE)] /\ mode = RNE /\ pick = [op |-> "
 
 \* three small steps per operation: the kind, its parameters, its effect (so that the simulator, which picks uniformly
 \* among the successors, gives every kind of operation the same weight and evaluates one semantic function per step)
-Kinds == {"Load", "Bin", "BinDefault", "Un", "Round", "MinMax", "SetMode", "QuoRem", "Text", "Scale"}
+Kinds == {"Load", "Bin", "BinDefault", "Un", "Round", "MinMax", "SetMode", "QuoRem", "Text", "Scale",
+          "Quant", "Cmp", "Codec", "Int", "Frexp", "Pow"}
+IntTypes == {"int64", "int32", "uint64", "uint32"}
 ChooseKind ==
   /\ pick.op = "none" /\ Len(hist) < Depth
-  /\ \E k \in Kinds : pick' = [op |-> "kind", kind |-> k]
+  /\ IF Len(hist) < NReg THEN pick' = [op |-> "kind", kind |-> "Load"]        \* every behaviour starts by filling the registers
+     ELSE \E k \in Kinds : pick' = [op |-> "kind", kind |-> k]
   /\ UNCHANGED <<reg, mode, hist>>
 ChooseParams ==
   /\ pick.op = "kind"
-  /\ CASE pick.kind = "Load" -> \E d \in Regs : pick' = [op |-> "Load", d |-> d, i |-> RandomElement(1..PoolN)]
+  /\ CASE pick.kind = "Load" -> \E d \in (IF Len(hist) < NReg THEN {Len(hist) + 1} ELSE Regs) :
+                                    pick' = [op |-> "Load", d |-> d, i |-> RandomElement(1..PoolN)]
        [] pick.kind = "Bin" -> \E f \in BinOps, a \in Regs, b \in Regs, d \in Regs, m \in Modes :
                                  pick' = [op |-> f, a |-> a, b |-> b, d |-> d, m |-> m, wm |-> TRUE]
        [] pick.kind = "BinDefault" -> \E f \in BinOps, a \in Regs, b \in Regs, d \in Regs :
@@ -57,6 +61,13 @@ ChooseParams ==
        [] pick.kind = "Text" -> \E a \in Regs, d \in Regs : pick' = [op |-> "Text", a |-> a, d |-> d]          \* Parse(String(reg[a]))
        [] pick.kind = "Scale" -> \E a \in Regs, d \in Regs, k \in {0 - 6200, 0 - 40, 0 - 35, 0 - 1, 0, 1, 34, 35, 6100} :
                                  pick' = [op |-> "Ldexp", a |-> a, d |-> d, k |-> k]
+       [] pick.kind = "Quant" -> \E f \in {"Ceil", "Floor"}, a \in Regs, d \in Regs, dp \in {0 - 40, 0 - 1, 0, 1, 2, 33, 34, 40} :
+                                 pick' = [op |-> f, a |-> a, d |-> d, dp |-> dp]
+       [] pick.kind = "Cmp" -> \E a \in Regs, b \in Regs : pick' = [op |-> "Cmp", a |-> a, b |-> b]         \* an observation: no register changes
+       [] pick.kind = "Codec" -> \E f \in {"Binary", "Json", "Sql"}, a \in Regs, d \in Regs : pick' = [op |-> f, a |-> a, d |-> d]   \* decode(encode(reg[a]))
+       [] pick.kind = "Int" -> \E ty \in IntTypes, a \in Regs, d \in Regs : pick' = [op |-> "Int", ty |-> ty, a |-> a, d |-> d]    \* FromInt(ToInt(reg[a]))
+       [] pick.kind = "Frexp" -> \E a \in Regs, d \in Regs : pick' = [op |-> "Frexp", a |-> a, d |-> d]      \* Ldexp(Frexp(reg[a]))
+       [] pick.kind = "Pow" -> \E a \in Regs, b \in Regs, d \in Regs, m \in Modes : pick' = [op |-> "Pow", a |-> a, b |-> b, d |-> d, m |-> m, wm |-> TRUE]
   /\ UNCHANGED <<reg, mode, hist>>
 Choose == ChooseKind \/ ChooseParams
 
@@ -77,6 +88,15 @@ Result(p) ==
     [] p.op = "QuoRem" -> Plain(QuoRemSem(reg[p.a], reg[p.b], mm)[1])
     [] p.op = "Text" -> IF reg[p.a].k = "nan" THEN reg[p.a] ELSE Plain(ParseSem(StringSem(reg[p.a]), mode).val)
     [] p.op = "Ldexp" -> IF reg[p.a].k = "nan" THEN reg[p.a] ELSE Plain(Resolve(LdexpExact(reg[p.a], p.k), mode))
+    [] p.op \in {"Ceil", "Floor"} -> LET s == (IF p.op = "Ceil" THEN CeilSem(reg[p.a], p.dp) ELSE FloorSem(reg[p.a], p.dp)) IN
+                                      IF s.t = "same" THEN reg[p.a] ELSE Plain(s.v)
+    [] p.op \in {"Binary", "Sql"} -> reg[p.a]                                         \* lossless both ways, every class of value
+    [] p.op = "Json" -> IF reg[p.a].k = "fin" THEN reg[p.a] ELSE reg[p.d]            \* only finite values have a JSON form
+    [] p.op = "Int" -> IF reg[p.a].k = "nan" THEN reg[p.d]                           \* the conversion panics on NaN: nothing is stored
+                       ELSE LET t == ToIntSem(reg[p.a], p.ty) IN Fin(t[1], t[2], 0)
+    [] p.op = "Frexp" -> reg[p.a]                                                    \* frac * 10^e = d exactly
+    [] p.op = "Pow" -> LET ld == PowLadder(reg[p.a], reg[p.b], mm) IN
+                       IF ld.t = "num" THEN reg[p.d] ELSE Plain(Resolve(ld, mm))    \* only the exactly specified cases are stored
 \* second result (the remainder of QuoRem)
 Result2(p) == LET mm == IF "wm" \in DOMAIN p /\ p.wm THEN p.m ELSE mode IN Plain(QuoRemSem(reg[p.a], reg[p.b], mm)[2])
 
@@ -84,11 +104,14 @@ Apply ==
   /\ pick.op \notin {"none", "kind"}
   /\ IF pick.op = "SetMode"
      THEN mode' = pick.m /\ reg' = reg /\ hist' = Append(hist, pick)
+     ELSE IF pick.op = "Cmp"
+     THEN reg' = reg /\ mode' = mode /\ hist' = Append(hist, pick @@ [cmp |-> CmpSem(reg[pick.a], reg[pick.b])])
      ELSE LET v == Result(pick) IN
           /\ reg' = IF pick.op = "QuoRem" THEN [reg EXCEPT ![pick.d] = v, ![pick.d2] = Result2(pick)] ELSE [reg EXCEPT ![pick.d] = v]
           /\ mode' = mode
           /\ hist' = Append(hist, pick @@ [exp |-> v, exp2 |-> (IF pick.op = "QuoRem" THEN Result2(pick) ELSE v),
-                                            bits |-> (IF pick.op = "Load" THEN Encode(v) ELSE << >>)])
+                                            bits |-> (IF pick.op = "Load" THEN Encode(v) ELSE << >>),
+                                            skip |-> (pick.op = "Pow" /\ PowLadder(reg[pick.a], reg[pick.b], pick.m).t = "num")])
   /\ pick' = [op |-> "none"]
 
 Next == Choose \/ Apply
